@@ -226,6 +226,13 @@ func cmdGrpc(args []string) {
 			continue
 		}
 		direct := transferOnce(e, nil)
+		// the literal reading: EncodeError / DecodeError in memory, without the protobuf marshalling the transport
+		// adds (which cannot tell an empty list from an absent one)
+		inMemory := errors.DecodeError(context.Background(), errors.EncodeError(context.Background(), e))
+		if a, b := shapeSx(inMemory).String(), shapeSx(got).String(); a != b {
+			fail("text / structure of the received error differs from the in-memory EncodeError/DecodeError result", firstDiff(a, b))
+			continue
+		}
 		if a, b := shapeSx(direct).String(), shapeSx(got).String(); a != b {
 			fail("text / structure of the received error differs from the direct EncodeError/DecodeError result", firstDiff(a, b))
 			continue
